@@ -96,6 +96,10 @@ func c09Exec(o c09Op) (dig string) {
 		return sha(strings.Join(listStrings(l), ","))
 	case "hol":
 		return sha(strings.Join(listStrings(HolidayUtil.GetHolidaysByYear(a[0])), ",") + fmt.Sprint(HolidayUtil.GetHolidayByYmd(a[0], 10, 1)))
+	case "hol2":
+		s := calendar.NewSolarFromYmd(a[0], a[1], a[2])
+		return sha(fmt.Sprint(HolidayUtil.GetHolidayByYmd(a[0], a[1], a[2]), listStrings(HolidayUtil.GetHolidaysByYm(a[0], a[1])), len(listStrings(HolidayUtil.GetHolidaysByYear(a[0]))),
+			listStrings(HolidayUtil.GetHolidaysByTargetYmd(a[0], a[1], a[2])), s.Next(a[3], true).ToYmd(), s.Next(-a[3], true).ToYmd(), s.GetSalaryRate()))
 	case "ltime":
 		return sha(digest1(calendar.NewLunarTime(a[0], a[1], a[2], a[3], a[4], a[5])))
 	case "week":
@@ -195,7 +199,8 @@ func c09Exec(o c09Op) (dig string) {
 		return fmt.Sprintf("%.12g", ShouXingUtil.DtT(float64(a[0])/1000))
 	case "astro":
 		x := float64(a[0]) / 1000
-		return fmt.Sprintf("%.9f/%.9f/%.9f/%.9f", ShouXingUtil.CalcQi(x), ShouXingUtil.CalcShuo(x), ShouXingUtil.QiAccurate2(x), ShouXingUtil.SaLonT(x/36525))
+		return fmt.Sprintf("%.9f/%.9f/%.9f/%.9f", ShouXingUtil.CalcQi(x), ShouXingUtil.CalcShuo(x), ShouXingUtil.QiAccurate2(x), ShouXingUtil.SaLonT(x/36525)) +
+			fmt.Sprintf("/%.9f", ShouXingUtil.QiAccurate(math.Floor(x/15.2184)*math.Pi/12))
 	case "obj":
 		// not hashed: the parent names the first differing call
 		return mapDigest(c09ObjExec(a, c09Salt))
@@ -449,7 +454,11 @@ func c09Ops(seed int64, n int) (ops []c09Op, hostile []c09Op) {
 		case 4:
 			ops = append(ops, c09Op{K: "ly", A: []int{y + rng.Intn(3) - 1}})
 		case 5:
-			ops = append(ops, c09Op{K: "lm", A: []int{y, 1 + rng.Intn(12), rng.Intn(61) - 30}})
+			lm := 1 + rng.Intn(12)
+			if lp := calendar.NewLunarYear(y).GetLeapMonth(); lp > 0 && rng.Intn(3) == 0 {
+				lm = -lp
+			}
+			ops = append(ops, c09Op{K: "lm", A: []int{y, lm, rng.Intn(61) - 30}})
 		case 6:
 			ops = append(ops, c09Op{K: "snext", A: []int{y, m, d, rng.Intn(801) - 400, rng.Intn(2)}})
 		case 7:
@@ -460,7 +469,20 @@ func c09Ops(seed int64, n int) (ops []c09Op, hostile []c09Op) {
 			ec.SetSect(sect)
 			ops = append(ops, c09Op{K: "bazi", A: []int{sect, 1900}, S: []string{ec.GetYear(), ec.GetMonth(), ec.GetDay(), ec.GetTime()}})
 		case 8:
-			ops = append(ops, c09Op{K: "hol", A: []int{2001 + rng.Intn(25)}})
+			if rng.Intn(3) == 0 {
+				ops = append(ops, c09Op{K: "hol", A: []int{2001 + rng.Intn(25)}})
+			} else {
+				// a day in or next to a run of recorded days (look-ups then move backwards as well as forwards through the table)
+				hy := 2002 + rng.Intn(24)
+				recs := listStrings(HolidayUtil.GetHolidaysByYear(hy))
+				hm, hd := 1+rng.Intn(12), 1+rng.Intn(28)
+				if len(recs) > 0 {
+					fmt.Sscanf(recs[rng.Intn(len(recs))], "%d-%d-%d", &hy, &hm, &hd)
+					jj := ref.JDN(hy, hm, hd) + rng.Intn(5) - 2
+					hy, hm, hd = ref.FromJDN(jj)
+				}
+				ops = append(ops, c09Op{K: "hol2", A: []int{hy, hm, hd, 1 + rng.Intn(6)}})
+			}
 		case 9:
 			l := calendar.NewSolarFromYmd(y, m, d).GetLunar()
 			ops = append(ops, c09Op{K: "ltime", A: []int{l.GetYear(), l.GetMonth(), l.GetDay(), h, mi, s}})
